@@ -31,9 +31,11 @@ def suffixCoherent (t : List (Text × String)) : Bool :=
 
 theorem suffix_coherent : suffixCoherent table = true := by decide +kernel
 
-/-- the table has no duplicate keys and 39 entries over 23 grammars -/
-theorem table_shape : table.length = 39 ∧ (table.map (·.1)).Nodup ∧ ((table.map (·.2)).eraseDups).length = 23 := by
-  refine ⟨by decide +kernel, by decide +kernel, by decide +kernel⟩
+/-- the table has no duplicate keys (a hash map built from it keeps every entry) and registers the compound and extension-less
+    names the property lists; its size is not fixed: registering a further suffix for an existing grammar changes nothing here -/
+theorem table_shape : (table.map (·.1)).Nodup ∧
+    ∀ k ∈ ["d.ts", "go.mod", "go.sum", "go.work", "Makefile", "makefile"], k.toList ∈ table.map (·.1) := by
+  refine ⟨by decide +kernel, by decide +kernel⟩
 
 /-- **every registered suffix wins** for `base.suffix`, `base.x.suffix`, `.base.suffix` and the bare
     suffix itself (e.g. `Makefile`, `go.mod`), whatever directories precede - checked for every
